@@ -1,8 +1,217 @@
+import Corro.Model.CatchUp
 import Driver.Util
-/-! Driver stub for C12: not built yet. -/
+/-!
+Line-protocol driver for C12.  The op lines are the schedule: each coarse op of the harness
+(`harness/src/c12.rs`) is expanded into the fine steps of `Corro.CatchUp` that a free-running task
+performs between two observable points (`runQ` / `runFree`).
+-/
 namespace Driver.C12
-abbrev State := Unit
-def init : State := ()
-def step (st : State) (_toks : List String) : Option (State × String) := some (st, "bad-op")
+open Corro.CatchUp
+
+structure DSub where
+  sid : String
+  /-- `none`: only `tx.subscribe()` happened -/
+  sub : Option Sub := none
+  createdAt : Nat
+  held : Bool := false
+  stuckAtAttach : Bool := false
+  printed : Nat := 0
+deriving Inhabited
+
+/-- ids `lo+1..=hi` change the row count by `+1` (kind 0), `0` (kind 1), `-1` (kind 2) each -/
+structure Seg where
+  lo : Nat
+  hi : Nat
+  kind : Nat
+deriving Inhabited
+
+structure State where
+  inited : Bool := false
+  cfg : Cfg := {}
+  env : Env := {}
+  rows0 : Nat := 0
+  segs : List Seg := []
+  rows : Nat := 0
+  pendingRows : Nat := 0
+  blocked : Nat := 0
+  subs : List DSub := []
+deriving Inhabited
+
+def init : State := {}
+
+def evtCap : Nat := 512
+
+def rowsAt (st : State) (v : Nat) : Nat :=
+  st.segs.foldl (fun acc s =>
+    let n := min s.hi v - s.lo
+    if s.kind = 0 then acc + n else if s.kind = 2 then acc - n else acc) st.rows0
+
+def fuel (st : State) : Nat := 4 * (st.cfg.qcap + st.cfg.bcap) + 100000
+
+def isPow2 (n : Nat) : Bool := decide (n ≥ 1) && (2 ^ Nat.log2 n == n)
+
+/-- canonical text of client items, consecutive change ids compressed -/
+partial def showItems (st : State) : List Item → List String
+  | [] => []
+  | .rows v :: r => s!"r{rowsAt st v}" :: showItems st r
+  | .eoq s :: r => s!"eoq:{s}" :: showItems st r
+  | .error :: r => "err" :: showItems st r
+  | .closed :: r => "closed" :: showItems st r
+  | .change a :: r =>
+    let rec go (b : Nat) : List Item → Nat × List Item
+      | .change c :: r' => if c = b + 1 then go c r' else (b, .change c :: r')
+      | r' => (b, r')
+    let (b, rest) := go a r
+    (if b = a then s!"c:{a}" else s!"c:{a}-{b}") :: showItems st rest
+
+def findSub (st : State) (sid : String) : Option DSub := st.subs.find? (·.sid == sid)
+
+def setSub (st : State) (d : DSub) : State :=
+  if st.subs.any (·.sid == d.sid) then { st with subs := st.subs.map (fun x => if x.sid == d.sid then d else x) }
+  else { st with subs := st.subs ++ [d] }
+
+/-- after something was published: buffering tasks of held subscribers copy, live ones forward -/
+def afterPublish (st : State) : State :=
+  { st with subs := st.subs.map (fun d =>
+      match d.sub with
+      | none => d
+      | some s =>
+        if d.held then { d with sub := some (runQ st.cfg st.env (fuel st) s) }
+        else { d with sub := some (runFree st.cfg st.env (fuel st) s) }) }
+
+/-- a receiver that reads the channel while the harness publishes -/
+def reading (d : DSub) : Bool :=
+  match d.sub with
+  | none => false
+  | some s => if d.held then !d.stuckAtAttach else s.pc != .done
+
+def emitN (e : Env) (n : Nat) : Env := { e with sent := e.sent + n }
+
+def parseMode (s : String) : Option Mode :=
+  if s = "new" then some .anew
+  else if s = "skip" then some .skip
+  else match s.splitOn ":" with
+    | ["from", n] => n.toNat?.map Mode.since
+    | _ => none
+
+def liveOrEnded (s : Sub) : String := if s.pc = .done then "ok ended" else "ok live"
+
+/-! ### client library -/
+
+inductive Scr where
+  | cols | row | eoq (c : Option Nat) | chg (k : Nat) | drop
+
+def parseScr (t : String) : Option Scr :=
+  if t = "cols" then some .cols
+  else if t = "row" then some .row
+  else if t = "eoqn" then some (.eoq none)
+  else if t = "drop" then some .drop
+  else match t.splitOn ":" with
+    | ["eoq", n] => n.toNat?.map (fun v => Scr.eoq (some v))
+    | ["c", n] => n.toNat?.map Scr.chg
+    | _ => none
+
+/-- `SubscriptionStream` over a scripted body: (items, resume requests) -/
+def clientGo (last : Option Nat) (observed : Bool) (acc : List String) (res : List String) :
+    List Scr → List String × List String
+  | [] => (acc ++ ["end"], res)
+  | .cols :: r => clientGo last observed (acc ++ ["cols"]) res r
+  | .row :: r => clientGo last observed (acc ++ ["row"]) res r
+  | .eoq c :: r =>
+    clientGo (handleEoq last c) true (acc ++ [match c with | some v => s!"eoq:{v}" | none => "eoqn"]) res r
+  | .chg k :: r =>
+    let x := handleChange last k
+    clientGo x.1 observed (acc ++ [match x.2 with | some (e, g) => s!"missed:{e}:{g}" | none => s!"ok:{k}"]) res r
+  | .drop :: r =>
+    if observed then clientGo last observed acc (res ++ [s!"from={last.getD 0}"]) r
+    else (acc ++ ["unfinished"], res)
+
+def step (st : State) (toks : List String) : Option (State × String) :=
+  match toks with
+  | "tag" :: _ => some (st, "ok")
+  | ["client", from_, script] => do
+    let from_ ← if from_ = "-" then some none else from_.toNat?.map some
+    let sc ← (splitList script).mapM parseScr
+    let (items, res) := clientGo from_ from_.isSome [] [] sc
+    pure (st, " ".intercalate items ++ " | resume=" ++ showList res)
+  | ["init", rows, bcap] => do
+    let rows ← rows.toNat?; let bcap ← bcap.toNat?
+    if st.inited || !isPow2 bcap || rows > 20000 then none else
+    pure ({ st with inited := true, cfg := { bcap := bcap }, rows0 := rows, rows := rows, pendingRows := rows },
+          s!"ok r{rows} eoq:0")
+  | ["w", kind, n] => do
+    let n ← n.toNat?
+    if !st.inited || n > 30000 || st.blocked > 0 then none else
+    let k ← if kind = "ins" then (if n = 0 then none else some 0) else if kind = "upd" then some 1 else if kind = "del" then some 2 else none
+    let a := if k = 0 then n else min n st.rows
+    let e := emitN st.env a
+    let e := { e with committed := e.sent }
+    let rows := if k = 0 then st.rows + a else if k = 2 then st.rows - a else st.rows
+    pure ({ st with env := e, segs := st.segs ++ [⟨st.env.sent, e.sent, k⟩], rows := rows, pendingRows := rows },
+          s!"ok ev={a} sent={e.sent}")
+  | ["wblock", n] => do
+    let n ← n.toNat?
+    if !st.inited || n > 2000 || st.blocked > 0 || st.env.published ≠ st.env.sent || n ≤ evtCap then none else
+    let e := emitN st.env evtCap
+    pure ({ st with env := e, segs := st.segs ++ [⟨st.env.sent, st.env.sent + n, 0⟩], blocked := n - evtCap,
+                    pendingRows := st.rows + n }, s!"ok sent={e.sent}")
+  | ["commit"] =>
+    if !st.inited || st.blocked = 0 then none else
+    let e := emitN st.env st.blocked
+    let e := { e with committed := e.sent }
+    some ({ st with env := e, blocked := 0, rows := st.pendingRows }, s!"ok sent={e.sent}")
+  | ["prune"] =>
+    if !st.inited || st.blocked > 0 then none else
+    let e := stepEnv st.cfg st.env .prune
+    some ({ st with env := e }, s!"ok pruned={e.pruned}")
+  | ["pub", k] => do
+    if !st.inited then none else
+    let avail := st.env.sent - st.env.published
+    let k ← if k = "all" then (if st.blocked > 0 then none else some avail) else k.toNat?.map (min · avail)
+    if st.blocked > 0 && k ≥ st.blocked then none else
+    if k > st.cfg.bcap && st.subs.any reading then none else
+    let e := if st.blocked > 0 then emitN st.env k else st.env
+    let e := { e with published := e.published + k }
+    let st := afterPublish { st with env := e, blocked := if st.blocked > 0 then st.blocked - k else 0 }
+    pure (st, s!"ok published={e.published} sent={e.sent}")
+  | ["sub", sid] =>
+    if !st.inited || (findSub st sid).isSome then none else
+    some (setSub st { sid := sid, createdAt := st.env.published }, "ok")
+  | ["attach", sid, mode, how] => do
+    if !st.inited then none else
+    let mode ← parseMode mode
+    let hold ← if how = "hold" then some true else if how = "free" then some false else none
+    let d ← match findSub st sid with
+      | some d => if d.sub.isSome then none else some d
+      | none => some { sid := sid, createdAt := st.env.published }
+    let okHold := match mode with
+      | .anew => decide (st.rows ≥ 2)
+      | .since n => decide (st.env.committed - max n st.env.pruned ≥ 3)
+      | .skip => false
+    if hold && !okHold then none else
+    let s0 : Sub := { mode := mode, cur := d.createdAt + 1, qHead := d.createdAt + 1, qTail := d.createdAt + 1 }
+    let stuck := decide (st.env.published - d.createdAt > st.cfg.bcap)
+    if hold then
+      let s := runQ st.cfg st.env (fuel st) s0
+      let s := stepMain st.cfg st.env s
+      let s := if mode = .anew then stepMain st.cfg st.env s else s
+      pure (setSub st { d with sub := some s, held := true, stuckAtAttach := stuck }, "ok held")
+    else
+      let s := runFree st.cfg st.env (fuel st) s0
+      pure (setSub st { d with sub := some s, held := false, stuckAtAttach := stuck }, liveOrEnded s)
+  | ["release", sid] => do
+    let d ← findSub st sid
+    let s ← d.sub
+    if !d.held then none else
+    let s := runFree st.cfg st.env (fuel st) s
+    pure (setSub st { d with sub := some s, held := false }, liveOrEnded s)
+  | ["recv", sid] => do
+    let d ← findSub st sid
+    let s ← d.sub
+    if d.held then pure (st, "held") else
+    let new := s.out.drop d.printed
+    pure (setSub st { d with printed := s.out.length }, showList (showItems st new) " ")
+  | _ => none
+
 end Driver.C12
 def main : IO Unit := Driver.runLoop Driver.C12.init Driver.C12.step
